@@ -293,6 +293,67 @@ Proof.
 Qed.
 End AgreeFileOne.
 
+(* ---------- transfer: wherever the crate agrees with the Standard, the crate's join is contained ---------- *)
+Section Transfer.
+Variable dbg : bool.
+Variable hp hpo : list N -> result host.
+Variable hd : host -> list N.
+Variable shp : bool -> list N -> option spec_host.
+Variable shs : spec_host -> list N.
+
+(* for ANY related pair of base records (file or not) and ANY reference meeting the Standard-side premise on which the
+   model's answer agrees with the Standard's (agree_good: the conclusion of every class theorem of C01): the Standard
+   succeeds keeping the front, and the model answers Overflow or a related record whose six front API strings are the
+   base's *)
+Theorem std_contain_transfer b sb input : related dbg shs b sb -> has_opaque_path sb = false ->
+  std_contain_pre sb (spec_clean input) = true ->
+  agree_good dbg shs (parse_url dbg hp hpo hd None (Some b) input) (spec_basic_url_parse shp input (Some sb)) ->
+  exists su, spec_basic_url_parse shp input (Some sb) = BDone su /\ spec_same_front sb su /\ spec_base_ok su = true
+    /\ ((parse_url dbg hp hpo hd None (Some b) input = PErr Overflow /\ U32_MAX_P < nlen (get_href shs su))
+        \/ exists u', parse_url dbg hp hpo hd None (Some b) input = POk u' /\ related dbg shs u' su
+                      /\ option_map api_front (api_of_model dbg u') = option_map api_front (api_of_model dbg b)).
+Proof.
+  intros R Hop Hpre A.
+  destruct (std_contain_every shp input sb (rel_valid _ _ _ _ R) Hop Hpre) as (su & HS & HF).
+  exists su. split; [exact HS|]. split; [exact HF|].
+  rewrite HS in A. cbn [agree_good] in A. destruct A as [Hbo [[E L]|(u' & E & Ru)]].
+  - split; [exact Hbo|]. left. split; assumption.
+  - split; [exact Hbo|]. right. exists u'. split; [exact E|]. split; [exact Ru|].
+    rewrite (rel_api _ _ _ _ Ru), (rel_api _ _ _ _ R). cbn [option_map]. rewrite (spec_front_api shs sb su HF). reflexivity.
+Qed.
+
+(* instance: the scheme-less drive-letter reference ("C|/y") against a file base with the EMPTY host (C01's class
+   in_class_file_rel_drive) *)
+Hypothesis Hse : shs SEmpty = [].
+
+Lemma in_class_file_rel_drive_pre sb input : in_class_file_rel_drive sb input = true ->
+  has_opaque_path sb = false /\ list_eqb (su_scheme sb) str_file = true
+  /\ spec_scheme (spec_clean input) = None /\ starts_with_windows_drive_letter (spec_clean input) = true.
+Proof.
+  unfold in_class_file_rel_drive. intros Hc.
+  destruct (spec_scheme (spec_clean input)) as [?|] eqn:Es; [discriminate Hc|].
+  destruct (file_drive_ok_facts sb _ Hc) as (Hop & Hf & _ & Hw & _). repeat split; assumption.
+Qed.
+
+Theorem std_contain_file_drive_agree b sb input : usv_list input -> related dbg shs b sb ->
+  in_class_file_rel_drive sb input = true ->
+  exists su, spec_basic_url_parse shp input (Some sb) = BDone su /\ spec_same_front sb su
+    /\ ((parse_url dbg hp hpo hd None (Some b) input = PErr Overflow /\ U32_MAX_P < nlen (get_href shs su))
+        \/ exists u', parse_url dbg hp hpo hd None (Some b) input = POk u' /\ related dbg shs u' su
+                      /\ full_base dbg shs u' su
+                      /\ option_map api_front (api_of_model dbg u') = option_map api_front (api_of_model dbg b)).
+Proof.
+  intros Hu R Hc.
+  destruct (in_class_file_rel_drive_pre sb input Hc) as (Hop & Hf & Hs & Hw).
+  destruct (std_contain_file_drive shp input sb (rel_valid _ _ _ _ R) Hop Hf Hs Hw) as (su & HS & HF & _).
+  exists su. split; [exact HS|]. split; [exact HF|].
+  destruct (class_file_rel_drive dbg hp hpo hd shp shs Hse input b sb Hu R Hc) as [A FB].
+  rewrite HS in A. cbn [agree_good] in A. destruct A as [_ [[E L]|(u' & E & Ru)]]; [left; split; assumption|].
+  right. exists u'. split; [exact E|]. split; [exact Ru|]. split; [exact (FB su u' HS E)|].
+  rewrite (rel_api _ _ _ _ Ru), (rel_api _ _ _ _ R). cbn [option_map]. rewrite (spec_front_api shs sb su HF). reflexivity.
+Qed.
+End Transfer.
+
 (* ---------- non-vacuity ---------- *)
 From RU Require Import Model.Host Proofs.C09_Host Spec.WhatwgHostParse.
 (* the Standard side alone: base = the Standard's parse result of `base`; every reference meets std_file_all_pre
